@@ -574,16 +574,32 @@ func (m *Manager) Restore(name string, reader io.Reader) error {
 	if err != nil {
 		return err
 	}
-	// Reads are served from the restored shard from now on, tell those who wait for the table where it stands.
+	// Reads are served from the restored shard from now on. Its replicas kept quiet so far, an empty sequence at the
+	// restored leader index (nothing to apply, the index cannot move) makes every one of them tell those who wait
+	// for the table where it stands.
 	if m.cfg.Table.AppliedIndexListener != nil {
-		ctx, cancel := context.WithTimeout(context.Background(), 30*time.Second)
-		defer cancel()
-		active := tbl.AsActive(m.nh)
-		if idx, err := active.LeaderIndex(ctx, false); err == nil {
-			m.cfg.Table.AppliedIndexListener(name, idx.Index)
-		}
+		m.announceLeaderIndex(tbl)
 	}
 	return nil
+}
+
+func (m *Manager) announceLeaderIndex(tbl Table) {
+	ctx, cancel := context.WithTimeout(context.Background(), 30*time.Second)
+	defer cancel()
+	active := tbl.AsActive(m.nh)
+	idx, err := active.LeaderIndex(ctx, true)
+	if err != nil {
+		m.log.Warnf("unable to read the leader index of the restored table '%s': %v", tbl.Name, err)
+		return
+	}
+	cmd := &regattapb.Command{Table: []byte(tbl.Name), Type: regattapb.Command_SEQUENCE, LeaderIndex: &idx.Index}
+	bts, err := cmd.MarshalVT()
+	if err != nil {
+		return
+	}
+	if _, err := m.nh.SyncPropose(ctx, m.nh.GetNoOPSession(tbl.ClusterID), bts); err != nil {
+		m.log.Warnf("unable to announce the leader index of the restored table '%s': %v", tbl.Name, err)
+	}
 }
 
 func (m *Manager) getTableVersion(name string) (Table, uint64, error) {
